@@ -2,7 +2,9 @@ import Dhcp.Driver.V4
 import Dhcp.Driver.Label
 import Dhcp.Driver.Raw
 import Dhcp.Driver.V4Acc
+import Dhcp.Driver.V4Build
 import Dhcp.Driver.V6
+import Dhcp.Driver.V6Build
 import Dhcp.Driver.Client
 import Dhcp.Driver.Server
 import Dhcp.Driver.Misc
@@ -13,10 +15,10 @@ import Dhcp.Driver.Misc
   Each family of operations lives in its own `Dhcp/Driver/<Family>.lean`
   exporting `step<Family> : String → List String → Option String`.
 -/
-open Dhcp.Driver
+open Dhcp.Driver Dhcp.Driver.Cli
 
 def families : List (String → List String → Option String) :=
-  [stepV4, stepLabel, stepRaw, stepV4Acc, stepV6, stepClient, stepServer, stepMisc]
+  [stepV4, stepLabel, stepRaw, stepV4Acc, stepV4Build, stepV6, stepV6Build, stepClient, stepServer, stepMisc]
 
 def step (line : String) : String :=
   match (line.trimAscii.toString.splitOn " ").filter (· ≠ "") with
